@@ -350,13 +350,14 @@ static void thr_case(int nthreads, int nops, uint64_t seed, bool tsan) {
 }
 
 /* ---------------------------------------------- writable-segment snapshot */
-struct seg { uintptr_t lo, hi; bool found; char name[256]; };
+struct seg { uintptr_t lo, hi; bool found; char name[256]; uint8_t* tls; size_t tls_len; };
 static int phdr_cb(struct dl_phdr_info* info, size_t size, void* ud) {
   (void)size;
   struct seg* s = ud;
   if (!info->dlpi_name || !strstr(info->dlpi_name, "libcbor-picso")) return 0;
   for (int i = 0; i < info->dlpi_phnum; i++) {
     const ElfW(Phdr)* ph = &info->dlpi_phdr[i];
+    if (ph->p_type == PT_TLS && ph->p_memsz) { s->tls = info->dlpi_tls_data; s->tls_len = ph->p_memsz; } /* this thread's copy of the module's thread-local block */
     if (ph->p_type == PT_LOAD && (ph->p_flags & PF_W)) {
       uintptr_t lo = info->dlpi_addr + ph->p_vaddr, hi = lo + ph->p_memsz;
       if (!s->found) { s->lo = lo; s->hi = hi; s->found = true; }
@@ -376,6 +377,10 @@ static void segment_case(uint64_t seed, int nthreads, int nops) {
   size_t len = s.hi - s.lo;
   uint8_t* before = malloc(len);
   memcpy(before, (void*)s.lo, len);
+  /* thread-local objects of the library are hidden state too (per thread instead of per process) */
+  uint8_t* tls_before = NULL;
+  if (s.tls && s.tls_len) { tls_before = malloc(s.tls_len); memcpy(tls_before, s.tls, s.tls_len); }
+  VH_MAX("max_thread_local_bytes_of_the_library", s.tls_len);
   if (nthreads <= 1) {
     struct tctx solo = {.id = 0, .seed = seed, .nops = nops, .record = false};
     workload(&solo);
@@ -393,6 +398,12 @@ static void segment_case(uint64_t seed, int nthreads, int nops) {
   size_t changed = 0, first = 0;
   for (size_t i = 0; i < len; i++) if (before[i] != ((uint8_t*)s.lo)[i]) { if (!changed) first = i; changed++; }
   if (changed) vh_violation("library-global-state-changed", "%zu byte(s) of the library's %zu-byte writable segment changed across a workload that only used the public API on private items (first at offset %zu): hidden mutable global state", changed, len, first);
+  if (tls_before) {
+    size_t tchanged = 0;
+    for (size_t i = 0; i < s.tls_len; i++) if (tls_before[i] != s.tls[i]) tchanged++;
+    if (tchanged && nthreads <= 1) vh_violation("library-global-state-changed", "%zu byte(s) of the library's %zu-byte thread-local block changed across a single-threaded workload that only used the public API: hidden mutable state", tchanged, s.tls_len);
+    free(tls_before);
+  }
   VH_MAX("max_writable_segment_bytes", len);
   VH_COUNT("segment_snapshots_compared", 1);
   free(before);
